@@ -340,6 +340,7 @@ class Ctx:
         self.abs_mode = 'fork'   # or 'atom': |x| as a defined atom (no fork)
         self.cdiv_mode = 'expand'  # or 'atom': 1/w as defined atoms
         self.lazy_decide = False   # fork without feasibility queries
+        self.deadline = None       # absolute time after which check() aborts
         self.angle_zero_fork = False  # np.angle(z): fork on z == 0
         self.eig_sorted = False   # Hermitian eig stub: ascending distinct
         self.norm_unit_check = False  # norm(x): return 1 if provably unit
@@ -446,6 +447,9 @@ class Ctx:
             self.assumptions.append(text)
 
     def check(self, *extra, backend='feas'):
+        if self.deadline is not None and time.time() > self.deadline:
+            raise BoundExceeded('work unit wall-clock cap reached inside a '
+                                'path')
         t0 = time.time()
         r = self.solver.check(*extra)
         self.stats.add(backend, time.time() - t0)
@@ -1782,6 +1786,8 @@ def explore(fn, *, timeout_ms=20000, max_paths=100000, max_decisions=2000,
             raise BoundExceeded('exploration wall-clock cap %ss' % wall_s)
         ctx = Ctx(prefix, timeout_ms=timeout_ms, max_decisions=max_decisions,
                   stats=stats, div_mode=div_mode, logic=logic)
+        if wall_s is not None:
+            ctx.deadline = t0 + wall_s
         rec = dict(outcome='ok', exc=None, result=None)
         with ctx:
             try:
